@@ -84,6 +84,18 @@ def run(prog, rep, tier):
     def cap_len(E_, frame, rets):
         pass
     E.gc_roots.add(('o', ('p', 'arg1')))
+    rd = next((b for b in prog.bodies.values() if b['kind'] == 'fn' and b['name'] == "<decode::Message as deku::DekuReader<'_>>::from_reader_with_ctx"), None)
+
+    class KeepLen:
+        """the 56 / 112-bit partition of the Message reader stays a trace partition up to the entry's return
+        (states of the two frame lengths are never merged, however many states a callee produces)"""
+        def exit(self, E_, nf, rets_):
+            for st, v in rets_:
+                for tg in st.tags:
+                    if tg[0] == 'P' and tg[1] == nf.pathid and tg[2] == 'bit_len':
+                        st.tags = st.tags | {('LEN', tg[3])}
+    if rd is not None:
+        E.hooks[rd['id']] = KeepLen()
     rets = runner.run_entry(E, msg_try)
     n1 = rep.absorb_engine(E, rule='O1-panic-freedom')
     rep.floor('try_from obligations', n1, 3000)
